@@ -37,7 +37,7 @@ def classify_db(cat, name):
 
 
 def pick_names(rng, cat, names, n, classes):
-    """n names for category cat; classes: weights dict over db/gss/unknown/long/punct/nonutf8/dup."""
+    """n names for category cat; classes: weights dict over db/gss/unknown/long/punct/nonutf8/dup/empty."""
     out = []
     kinds = list(classes)
     weights = [classes[k] for k in kinds]
@@ -55,6 +55,8 @@ def pick_names(rng, cat, names, n, classes):
             out.append(audit.gss_instance(rng, rng.choice(gss_fams), forced=rng.choice([None, '+', '/', 'a+/'])))
         elif k == 'dup':
             out.append(rng.choice(out))
+        elif k == 'empty':
+            out.append('')   # an empty entry inside a list ("a,,b" or a leading comma): carries no name
         else:
             out.append(audit.unknown_name(rng, {'unknown': 'plain'}.get(k, k)))
     return out
